@@ -23,6 +23,10 @@ CUSTOM_SETS = [
     (b"^-", b"]\\"), (b"a", b";"), (b"[", b"]"), (b"{}", b";\n"), (b":", b"="), (b"?", b"^"), (b"-^]", b"\\[;"),
     (b"\xa7", b";"), (b";", b"\xc2"), (b"\xff", b"\x80"), (b";", b";"), (b"a;", b";]"),
 ]
+# sets whose text looks like something else (an escape sequence, a regex alternation): the bytes given are the delimiters;
+# neighbouring entries are mirror images of each other (the same bytes, the other role)
+LOOKALIKE_SETS = [(b"", b"|"), (b"|", b""), (b"", b"\\n"), (b"\\n", b""), (b"\\t\\\\", b"\\x41"), (b";|", b"|n"), (b";", b"||n"), (b"\\", b"0")]
+LOOKALIKE_ALPHA = [b"\\", b"n", b"\n", b"|", b";", b"a", b"x41", b"\t", b"0"]
 
 
 def check_line(ctx, data, parts, case):
@@ -195,8 +199,8 @@ def cli_cases(ctx, datas):
     cwd = os.getcwd()
     os.chdir(d)
     try:
-        for B, A in CUSTOM_SETS:
-            for data in datas:
+        for B, A in CUSTOM_SETS + LOOKALIKE_SETS:
+            for data in datas + [b"a\\nb\nc|d\\x41e\tf;g\\\\h0i", b"|a||b\\|n\n"]:
                 if b"DDBEGIN" in data or b"DDEND" in data:
                     continue
                 f = d / "tc.txt"
@@ -296,6 +300,9 @@ def run(ctx) -> int:
         symbol_case(ctx, data, None)
     for data in loaders.all_strings(SYM_ALPHA, Ls - 1):
         for cut in CUSTOM_SETS:
+            symbol_case(ctx, data, cut)
+    for data in loaders.all_strings(LOOKALIKE_ALPHA, 3):
+        for cut in LOOKALIKE_SETS:
             symbol_case(ctx, data, cut)
     ctx.exhaustive.append(f"line/char: all strings <= {L} over 11 bytes; symbol default sets: all strings <= {Ls} over 13 bytes; "
                           f"{len(CUSTOM_SETS)} custom sets: all strings <= {Ls - 1}")
